@@ -949,6 +949,11 @@ func runConcurrent(k *vf.Case) {
 		wg.Add(1)
 		go func() {
 			defer wg.Done()
+			defer func() {
+				if rec := recover(); rec != nil {
+					k.Violate("panic", "concurrent recording", fmt.Sprint(rec), nil)
+				}
+			}()
 			gr := vf.NewRNG(seed)
 			<-release
 			for i := 0; i < per; i++ {
